@@ -72,7 +72,7 @@ def coverage(rep, doc, pkgs):
 
 def run(tier, seed):
     rep = C.Report(PID, tier, seed, 'proof')
-    proofs_ok = C.standard_proof_phase(rep, ['parsers'], ['theories/Props/C05.vo', 'theories/Run/ParseRun.vo'], 'Props.C05', PINS['theorems'], PROOF_FILES, [], imports=PINS['imports'])
+    proofs_ok = C.standard_proof_phase(rep, ['parsers'], ['theories/Props/C05.vo', 'theories/Proofs/ParserPins.vo', 'theories/Run/ParseRun.vo'], 'Props.C05', PINS['theorems'], PROOF_FILES, [], imports=PINS['imports'])
     hok, hlog = C.build_harness()
     if not hok:
         rep.broke('harness does not build against /repo', hlog[-1500:])
